@@ -40,9 +40,9 @@ class VerusResult:
     pass
 
 
-def run_verus(path, modules=None, rlimit=None, threads=None, extra=None, timeout=3600):
+def run_verus(path, modules=None, rlimit=None, threads=None, extra=None, timeout=3600, multiple_errors=5):
     cmd = ['verus', path, '--triggers-mode', 'silent', '--error-format=json', '--output-json', '--time-expanded',
-           '--multiple-errors', '5']
+           '--multiple-errors', str(multiple_errors)]
     if modules:
         for m in modules:
             cmd += ['--verify-module', m]
